@@ -42,7 +42,11 @@ func (c *Ctx) readCountRule(rule string, rels []string, floor int) {
 		if c.isTestFunc(f) || !want[load.RelPkg(f)] {
 			continue
 		}
-		for _, call := range callsIn(f, isReaderRead) {
+		isFull := func(call ssa.CallInstruction) bool {
+			cal := call.Common().StaticCallee()
+			return cal != nil && (cal.String() == "io.ReadFull" || cal.String() == "io.ReadAtLeast")
+		}
+		for _, call := range callsIn(f, func(call ssa.CallInstruction) bool { return isReaderRead(call) || isFull(call) }) {
 			if _, isDefer := call.(*ssa.Defer); isDefer {
 				continue
 			}
@@ -56,7 +60,23 @@ func (c *Ctx) readCountRule(rule string, rels []string, floor int) {
 			if cv != nil {
 				for _, r := range nonDebugRefs(cv) {
 					ex, ok := r.(*ssa.Extract)
-					if !ok || ex.Index != 0 {
+					if !ok {
+						continue
+					}
+					if ex.Index != 0 {
+						// io.ReadFull reports a short read through its error: testing or returning that error is the check
+						if isFull(call) && ex.Index == 1 {
+							for _, u := range nonDebugRefs(ex) {
+								switch u := u.(type) {
+								case *ssa.BinOp:
+									if u.Op == token.EQL || u.Op == token.NEQ {
+										checked = true
+									}
+								case *ssa.Return:
+									checked = true
+								}
+							}
+						}
 						continue
 					}
 					for _, u := range nonDebugRefs(ex) {
@@ -78,7 +98,7 @@ func (c *Ctx) readCountRule(rule string, rels []string, floor int) {
 					}
 				}
 			}
-			c.S.Check(checked, rule, load.FuncName(f)+":Read count", c.pos(call.Pos()), "the number of bytes read is compared with the number requested", "the byte count of Read is ignored: a truncated input is accepted and the rest of the buffer stays zero")
+			c.S.Check(checked, rule, load.FuncName(f)+":Read count", c.pos(call.Pos()), "the number of bytes read is compared with the number requested (or io.ReadFull's error is tested)", "the byte count of Read is ignored: a truncated input is accepted and the rest of the buffer stays zero")
 		}
 	}
 	c.S.Floor(rule, "Read calls in "+strings.Join(rels, ", "), floor, n)
